@@ -729,53 +729,6 @@ fn run(name: &str, args: &[String]) -> Option<String> {
             v.extend_from_slice(&k.agg_sig_parent_puzzle_additional_data);
             Some(hex::encode(v))
         }
-        "gen.dbg" => {
-            // PROGRAM: tree hashes of every puzzle of a quoted generator, plain vs interned allocator, cached vs uncached
-            use clvm_utils::{tree_hash, tree_hash_cached, TreeCache};
-            let mut a0 = Allocator::new();
-            let n0 = node_from_bytes_backrefs(&mut a0, &hx(&args[0])).ok()?;
-            let it = clvmr::serde::intern_tree(&a0, n0).ok()?;
-            let mut out = vec![];
-            let mut a1 = it.allocator;
-            let args = setup_generator_args(&mut a1, Vec::<Vec<u8>>::new(), ConsensusFlags::empty()).unwrap();
-            let d = ChiaDialect::new(ConsensusFlags::empty().to_clvm_flags());
-            let Reduction(_, outn) = run_program(&mut a1, &d, it.root, args, 0).unwrap();
-            let fake = a1.new_pair(NodePtr::NIL, outn).unwrap();
-            {
-                let (mut iter, _) = a1.next(outn)?;
-                while let Some((spend, rest)) = a1.next(iter) {
-                    iter = rest;
-                    if let Some([_, puzzle, _, solution, _]) = extract_n::<5>(&a1, spend) {
-                        let before = hex::encode(&clvm_utils::tree_hash(&a1, puzzle).to_bytes()[..4]);
-                        let r = run_program(&mut a1, &d, puzzle, solution, 0);
-                        let after = hex::encode(&clvm_utils::tree_hash(&a1, puzzle).to_bytes()[..4]);
-                        out.push(format!("run:{}:{}->{}", r.is_ok(), before, after));
-                    }
-                }
-            }
-            for (a, root) in [(&a0, n0), (&a1, fake)] {
-                let (_, body) = a.next(root)?;
-                let (mut iter, _) = a.next(body)?;
-                let mut cache = TreeCache::default();
-                let mut it2 = iter;
-                while let Some((spend, rest)) = a.next(it2) {
-                    it2 = rest;
-                    if let Some([_, puzzle, _]) = extract_n::<3>(a, spend) {
-                        cache.visit_tree(a, puzzle);
-                    }
-                }
-                while let Some((spend, rest)) = a.next(iter) {
-                    iter = rest;
-                    if let Some([_, puzzle, _, _, _]) = extract_n::<5>(a, spend) {
-                        let h1 = tree_hash(a, puzzle);
-                        let h2 = tree_hash_cached(a, puzzle, &mut cache);
-                        out.push(format!("{}/{}/{}", hex::encode(&h1.to_bytes()[..4]), hex::encode(&h2.to_bytes()[..4]), hex::encode(ser_node(a, puzzle))));
-                    }
-                }
-                out.push("||".into());
-            }
-            Some(out.join(" "))
-        }
         "gen.keys" => {
             let n = dec(&args[0]);
             Some(
